@@ -17,7 +17,7 @@ RULE = ('Hypothesis experiment frames with a cost column in both scenarios (fixe
         'and post-analysis-colab layouts (key_group=assignment, labels 2/1/-1, period -1 rows, date gaps), with/without '
         'cooldown, tails in {1,2}, level in [0.55,0.99], drawn threshold, random_state, nsims in {500,2000}, unit factors '
         '2^k; in half of the cases the model object was first fitted to (and asked about) a frame of the other cost scenario; '
-        '2^k. Non-trivial = both groups present, scenario detected as planted and (variable only) cost effect at least 20 '
+        'in half of the cases the caller edits its own frame between fit() and the first report. Non-trivial = both groups present, scenario detected as planted and (variable only) cost effect at least 20 '
         'posterior scales from 0 with n_pre >= 10; distinct by spec hash.')
 BUDGET = {'quick': 640, 'thorough': 20000}
 FLOOR = {'quick': 250, 'thorough': 8000}
@@ -45,6 +45,7 @@ def _spec(draw):
       'nsims': draw(st.sampled_from([500, 2000])),
       'ka': draw(st.integers(-6, 6)), 'kb': draw(st.integers(-6, 6)),
       'refit': draw(st.booleans()),
+      'scribble': draw(st.booleans()),
   }
 
 
@@ -107,6 +108,7 @@ def run(spec):
     if cpost.degenerate or fs['n_pre'] < 10 or not cpost.sigma2 > 0 or abs(cpost.loc[-1]) < 20 * cpost.scale[-1]:
       return {'viol': [], 'nt': False, 'cls': ['degenerate-incremental-cost'], 'dc': 1}
   df_before = df.copy(deep=True)
+  df_in = df.copy(deep=True) if spec.get('scribble') else df
   try:
     if spec.get('refit'):
       # 'refit' flavour: the model object has already analysed a frame of the other cost scenario
@@ -118,10 +120,16 @@ def run(spec):
         m.estimate_pointwise_and_cumulative_effect(metric='tbr_cost') if spec['use_cooldown'] else None
       except Exception:  # pylint: disable=broad-except
         pass
-      m.fit(df, **kwargs)
+      m.fit(df_in, **kwargs)
       cls.append('refit')
     else:
-      m = fit_model(df, kwargs, spec['use_cooldown'])
+      m = fit_model(df_in, kwargs, spec['use_cooldown'])
+    if spec.get('scribble'):
+      # the caller keeps editing its own frame after fit() and before the first report
+      if not df_in.equals(df_before):
+        viol.append(('C07:input-frame-modified', det))
+      frames.scribble(df_in, truth['names'])
+      cls.append('caller-edits-frame-after-fit')
     rep = _summ(m, spec)
     if not df.equals(df_before):
       viol.append(('C07:input-frame-modified', det))
